@@ -24,6 +24,9 @@ var storeCommitGuard = guardSpec{
 
 func c02(c *Ctx) {
 	c02PooledHeader(c, "C02.8/pooled-header-fully-rewritten")
+	// a transaction that was accepted and acknowledged stays readable: writer and reader draw the length limits of the
+	// tx record at the same place (analysis shared with C15.3)
+	c15LimitAgreement(c, "C02.9/record-limits-agree")
 	pk := []string{"embedded/store"}
 	// ---- C02.1 single writer sites -------------------------------------------------------------
 	c.ruleWhoMayCall("C02.1/txlog-writers", "txLog.Append", callTo(appAppend+"@txLog"),
